@@ -18,6 +18,7 @@ limitations under the License.
 
 #include <algorithm>
 #include <memory>
+#include <numeric>
 #include <vector>
 
 #include "libcellml/component.h"
@@ -280,10 +281,24 @@ bool ComponentEntity::doEquals(const EntityPtr &other) const
         if ((componentEntity != nullptr)
             && pFunc()->mEncapsulationId == componentEntity->encapsulationId()
             && pFunc()->mComponents.size() == componentEntity->componentCount()) {
+            // Match the child components one-to-one (as equalEntities() does for
+            // variables, resets and units): a child of the other entity that has
+            // been matched cannot be matched again.
+            std::vector<size_t> unmatchedIndex(pFunc()->mComponents.size());
+            std::iota(unmatchedIndex.begin(), unmatchedIndex.end(), 0);
             for (const auto &component : pFunc()->mComponents) {
-                if (!componentEntity->containsComponent(component, false)) {
+                bool componentFound = false;
+                size_t index = 0;
+                for (index = 0; index < unmatchedIndex.size() && !componentFound; ++index) {
+                    auto componentOther = componentEntity->component(unmatchedIndex.at(index));
+                    if (componentOther->equals(component)) {
+                        componentFound = true;
+                    }
+                }
+                if (!componentFound) {
                     return false;
                 }
+                unmatchedIndex.erase(unmatchedIndex.begin() + ptrdiff_t(index) - 1);
             }
             return true;
         }
